@@ -168,3 +168,7 @@ def islands(u: Unit):
         any(isinstance(c, ast.Call) and ast.unparse(c.func).endswith("push_back") and len(c.args) == 1 and ast.unparse(c.args[0]) == ast.unparse(l.target) for c in ast.walk(l))
         for l in loops)
     u.static("islands.order", ok_maps and ok_loops, fb.qualname, "islands come from (executor.)map(create_island, seeds) and each one is pushed back once, in iteration order, with and without threads")
+
+
+from . import calibreport as _CR7  # noqa: E402
+unit("C07", "islands.build")(_CR7.build_unit)              # _build executed: island seeds / order / settings (1 and 3 islands, every seed)
